@@ -5,8 +5,8 @@
        --yr_scanner_create-->    scanner objects_table snapshot  (scanner.c yr_scanner_define_X)
 
    The three families of define functions have DIFFERENT validity rules; each is modelled as the C code
-   has it (line references are to /repo at the pinned tree), including the places where the code
-   misbehaves ([RCrash], half-written entries).  Executable; tied to the implementation by
+   has it (line references are to /repo at the pinned tree), including the one place left where the code
+   misbehaves ([RCrash]: saving after a rules-level string redefinition).  Executable; tied to the implementation by
    checks/c20.py (same histories through harness/h_hist and the extracted model). *)
 From Coq Require Import List NArith ZArith QArith Bool.
 From YV Require Import Base.Bytes Base.CSem gen.GenConsts.
@@ -63,17 +63,17 @@ Record cstate := { c_ext : list xentry; c_objs : list ident }.
 
 Definition compiler_empty : cstate := {| c_ext := []; c_objs := [] |}.
 
-(* compiler.c 755-810.  Order of the C code: duplicate test against objects_table; allocate and fill
-   the table entry; for STRING with a NULL value return ERROR_INVALID_ARGUMENT -- AFTER the entry was
-   written and BEFORE the identifier enters objects_table. *)
+(* compiler.c 755-815.  Order of the C code: NULL string value -> ERROR_INVALID_ARGUMENT before any table
+   is touched (since fix ce98a74); duplicate test against objects_table; then the table entry and the object. *)
 Definition compiler_define (c : cstate) (x : ident) (d : dval) : cstate * res :=
-  if mem x (c_objs c) then (c, RErr ERROR_DUPLICATED_EXTERNAL_VARIABLE)
-  else
-    let e := {| x_id := x; x_ty := dval_ty d; x_val := dval_payload d; x_heap := false |} in
-    match d with
-    | DS None => ({| c_ext := c_ext c ++ [e]; c_objs := c_objs c |}, RErr ERROR_INVALID_ARGUMENT)
-    | _ => ({| c_ext := c_ext c ++ [e]; c_objs := c_objs c ++ [x] |}, ROk)
-    end.
+  match d with
+  | DS None => (c, RErr ERROR_INVALID_ARGUMENT)
+  | _ =>
+    if mem x (c_objs c) then (c, RErr ERROR_DUPLICATED_EXTERNAL_VARIABLE)
+    else
+      let e := {| x_id := x; x_ty := dval_ty d; x_val := dval_payload d; x_heap := false |} in
+      ({| c_ext := c_ext c ++ [e]; c_objs := c_objs c ++ [x] |}, ROk)
+  end.
 
 (* ------------------------------------------------------------------ rules level *)
 Definition rules := list xentry.
@@ -128,20 +128,23 @@ Fixpoint scanner_objs (r : rules) (acc : objs) : objs + res :=
       end
   end.
 
-(* scanner.c 404-470: lookup, then object type test (the boolean function IS the integer function),
-   then -- for strings -- strlen(value) *)
+(* scanner.c 404-475: for strings a NULL value -> ERROR_INVALID_ARGUMENT first (since fix 0dc25b3); lookup;
+   then the object type test (the boolean function IS the integer function) *)
 Definition scanner_define (o : objs) (x : ident) (d : dval) : objs * res :=
-  match lookup x o with
-  | None => (o, RErr ERROR_INVALID_ARGUMENT)
-  | Some v =>
-      match d, v with
-      | DI z, PI _ => (update x (PI z) o, ROk)
-      | DB z, PI _ => (update x (PI z) o, ROk)
-      | DF q, PF _ => (update x (PF q) o, ROk)
-      | DS (Some s), PS _ => (update x (PS s) o, ROk)
-      | DS None, PS _ => (o, RCrash)
-      | _, _ => (o, RErr ERROR_INVALID_EXTERNAL_VARIABLE_TYPE)
-      end
+  match d with
+  | DS None => (o, RErr ERROR_INVALID_ARGUMENT)
+  | _ =>
+    match lookup x o with
+    | None => (o, RErr ERROR_INVALID_ARGUMENT)
+    | Some v =>
+        match d, v with
+        | DI z, PI _ => (update x (PI z) o, ROk)
+        | DB z, PI _ => (update x (PI z) o, ROk)
+        | DF q, PF _ => (update x (PF q) o, ROk)
+        | DS (Some s), PS _ => (update x (PS s) o, ROk)
+        | _, _ => (o, RErr ERROR_INVALID_EXTERNAL_VARIABLE_TYPE)
+        end
+    end
   end.
 
 (* ------------------------------------------------------------------ the world: one compiler, one rule set, scanners *)
